@@ -26,8 +26,9 @@ def is_mut_ref(body, l):
     return str(body.local_ty(l).get('s', '')).startswith(('&mut', '*mut'))
 
 
-def prov(body):
-    if 'prov' in body._cache:
+def prov(body, skip=None):
+    """skip: index of one edge (as enumerated by edges_of) to leave out — the provenance the locals would have without that statement"""
+    if skip is None and 'prov' in body._cache:
         return body._cache['prov']
     p = {l: {l} for l in range(1, body.argc + 1)}
     edges = []  # (dst local, set of src locals)
@@ -58,6 +59,10 @@ def prov(body):
                 if a['k'] in ('copy', 'move') and is_mut_ref(body, a['place']['local']):
                     al = a['place']['local']
                     edges.append(('mut', al, src - {al}))
+    if skip == 'edges':
+        return edges, mutref
+    if skip is not None:
+        edges = [e for i, e in enumerate(edges) if i != skip]
     changed = True
     it = 0
     # copies of &mut refs alias the same target
@@ -94,7 +99,8 @@ def prov(body):
             if not add <= cur:
                 cur |= add
                 changed = True
-    body._cache['prov'] = p
+    if skip is None:
+        body._cache['prov'] = p
     return p
 
 
